@@ -50,7 +50,12 @@ def prepare(_):
                         if -90 <= q[1] <= 90:
                             around.add(a5.lonlat_to_cell(q, r))
                 clusters.append((f'f{f:02d}r{r:02d}', r, [tuple(v) for v in ring], [tuple(a5.cell_to_lonlat(y)) for y in sorted(around)]))
-    return {'geo': geo, 'c7': c7, 'sib': sib, 'res0': a5.get_res0_cells(), 'clusters': clusters}
+    # low resolutions have their own code paths (face pentagon, quintant triangles): cells and points for faces 0, 5, 11
+    low = []
+    for f, tri, kind, p, res, cell in geo:
+        if kind == 'in' and f in (0, 5, 11) and tri in (1, 6):
+            low.append((f'f{f:02d}t{tri}', p, a5.lonlat_to_cell(p, 0), a5.lonlat_to_cell(p, 1), a5.lonlat_to_cell(p, 2)))
+    return {'geo': geo, 'c7': c7, 'sib': sib, 'res0': a5.get_res0_cells(), 'clusters': clusters, 'low': low}
 
 
 def build_menu(k, faces=None, tris=None):
@@ -62,6 +67,13 @@ def build_menu(k, faces=None, tris=None):
         menu.append((f'lonlat_to_cell:{tag}', 'lonlat_to_cell', (p, res), False))
         menu.append((f'cell_to_boundary:{tag}', 'cell_to_boundary', (cell, {'segments': 2}), kind == 'in'))
         menu.append((f'cell_to_lonlat:{tag}', 'cell_to_lonlat', (cell,), False))
+    for tag, p, c0, c1, c2 in k['low']:
+        menu.append((f'low:lonlat_to_cell0:{tag}', 'lonlat_to_cell', (p, 0), False))
+        menu.append((f'low:lonlat_to_cell1:{tag}', 'lonlat_to_cell', (p, 1), False))
+        for r, c in ((0, c0), (1, c1), (2, c2)):
+            menu.append((f'low:cell_to_boundary:seg1:r{r}:{tag}', 'cell_to_boundary', (c, {'segments': 1}), False))
+            menu.append((f'low:cell_to_boundary:auto:r{r}:{tag}', 'cell_to_boundary', (c,), True))
+            menu.append((f'low:cell_to_lonlat:r{r}:{tag}', 'cell_to_lonlat', (c,), False))
     menu += pure_menu(k)
     return menu
 
@@ -79,6 +91,14 @@ def pure_menu(k):
         ('cell_to_children:quad_mut', 'cell_to_children', (sib[2],), True),
         ('uncompact:one_level', 'uncompact', ([sib[3]], 8), False),
         ('compact:plain', 'compact', (list(sib[:7]),), False),
+        # calls that are rejected are calls too: they must leave nothing behind
+        ('error:uncompact_finer_after_valid', 'uncompact', ([res0[2], sib[0], c7], 6), False),
+        ('error:uncompact_target_31', 'uncompact', ([sib[1], sib[2]], 31), False),
+        ('error:cell_to_children_coarser', 'cell_to_children', (c7, 3), False),
+        ('error:cell_to_parent_finer', 'cell_to_parent', (c7, 12), False),
+        ('error:hex_to_u64_bad', 'hex_to_u64', ('not-hex',), False),
+        ('uncompact:after_error_a', 'uncompact', ([sib[0], sib[1]], 9), False),
+        ('uncompact:after_error_b', 'uncompact', ([res0[2]], 2), False),
         ('cell_to_parent', 'cell_to_parent', (c7, 1), False),
         ('get_res0_cells', 'get_res0_cells', (), True),
         ('get_resolution', 'get_resolution', (c7,), False),
@@ -141,7 +161,7 @@ def run(tier, t0):
         expected[name] = res
         acc.n['transitions'] += 1
         case = {'history': [], 'event': name}
-        if res[0] != 'ok':
+        if res[0] != 'ok' and not name.startswith('error:'):
             acc.violation(f'c17:raises:{name}', f'{name} raises from the pristine state: {res[1]}', case)
         elif prob:
             acc.violation(f'c17:[]->{name}:{prob[:40]}', f'{name} from the pristine state: {prob}', case)
@@ -195,18 +215,20 @@ def run(tier, t0):
         menu2 = build_menu(k, faces={0, 6, 11}, tris={0, 9})
     else:
         menu2 = full
-    lvl1_hist = [[n] for n in sorted({v[0] for v in seen.values() if len(v) == 1})]
-    in_menu2 = {ev[0] for ev in menu2}
-    tasks = [([by_name[h[0]]], menu2, expected) for h in lvl1_hist if h[0] in in_menu2]
-    frontier2 = []
-    for (hist, _, _), res in zip(tasks, many(history.expand, tasks)):
-        frontier2 += record([hist[0][0]], menu2, res)
-    acc.strata['depth2_histories_expanded'] = len(tasks)
     sub = [ev for ev in menu2 if ev[0].split(':')[0] in ('lonlat_to_cell', 'cell_to_boundary')
            and any(t in ev[0] for t in ('f00t0', 'f00t9', 'f01t0', 'f01t9', 'f11t0', 'f11t9', 'f06t4'))]
     sub = sub[:24 if tier == 'quick' else 40] + pure_menu(k)[:3]
-    sub += [ev for ev in menu2 if ev[0].startswith('cell_to_children:quad')]
+    sub += [ev for ev in menu2 if ev[0].startswith('cell_to_children:quad') or ev[0].startswith('error:') or ev[0].startswith('uncompact')]
+    sub += [ev for ev in menu2 if ev[0].startswith('low:') and 'f00t1' in ev[0]]
     subnames = {ev[0] for ev in sub}
+    lvl1_hist = [[n] for n in sorted({v[0] for v in seen.values() if len(v) == 1})]
+    in_menu2 = {ev[0] for ev in menu2}
+    # successor states only need an identity where they can be extended (histories inside the depth-3 sub-menu) - hashing is the expensive part
+    tasks = [([by_name[h[0]]], menu2, expected, (subnames if h[0] in subnames else set()) if tier == 'quick' else None) for h in lvl1_hist if h[0] in in_menu2]
+    frontier2 = []
+    for (hist, _, _, _), res in zip(tasks, many(history.expand, tasks)):
+        frontier2 += record([hist[0][0]], menu2, res)
+    acc.strata['depth2_histories_expanded'] = len(tasks)
     tasks3 = [([by_name[n] for n in h], sub, expected) for h in frontier2 if all(n in subnames for n in h)]
     for (hist, _, _), res in zip(tasks3, many(history.expand, tasks3)):
         record([e[0] for e in hist], sub, res)
